@@ -558,6 +558,44 @@ def main(tier):
             got |= set(verdicts[ln][0])
         impl_control(f"mutant-{mut}-rejected", need <= got, str(sorted(got)))
 
+    # ---- a series whose neighbours resemble each other: consecutive members that share BOTH contractions (dilatational
+    # and deviatoric stiffness) exactly and differ elsewhere - an integer family: C44+=a, C55+=b, C66+=c, C11-=b+c,
+    # C22-=a+c, C33-=a+b, C23+=a, C13+=b, C12+=c.  The decomposition of a matrix is a function of that matrix: what a
+    # member reports inside the series is what it reports alone (in the identity frame and after an axis permutation).
+    base = np.diag([320.0, 200.0, 240.0, 64.0, 78.0, 80.0])
+    base[0, 1] = base[1, 0] = 68.0
+    base[0, 2] = base[2, 0] = 72.0
+    base[1, 2] = base[2, 1] = 74.0
+
+    def shifted(a, b, c):
+        m = base.copy()
+        m[3, 3] += a; m[4, 4] += b; m[5, 5] += c
+        m[0, 0] -= b + c; m[1, 1] -= a + c; m[2, 2] -= a + b
+        m[1, 2] += a; m[2, 1] += a; m[0, 2] += b; m[2, 0] += b; m[0, 1] += c; m[1, 0] += c
+        return m
+
+    perm = [1, 2, 0, 4, 5, 3]
+    fn = impl.fn
+    for fam in ([(0, 0, 0), (6, -3, 2), (0, 0, 0), (-4, 5, 1)], [(2, 2, -5), (0, 0, 0)]):
+        for frame in ("identity", "cyclic"):
+            mats = [shifted(*abc) for abc in fam]
+            if frame == "cyclic":
+                mats = [m[perm, :][:, perm] for m in mats]
+            try:
+                series = fn(np.array(mats))
+                for i, m in enumerate(mats):
+                    alone = fn(np.array([m]))
+                    chk.count(("same-contraction-neighbours", str(fam), frame, i))
+                    same = all(np.allclose(np.asarray(series[k][i], dtype=float), np.asarray(alone[k][0], dtype=float), rtol=1e-9, atol=1e-9, equal_nan=True) for k in KEYS if k != "hexagonal_axis")
+                    a1, a2 = np.asarray(series["hexagonal_axis"][i], dtype=float), np.asarray(alone["hexagonal_axis"][0], dtype=float)
+                    same = same and (np.allclose(a1, a2, atol=1e-9, equal_nan=True) or np.allclose(a1, -a2, atol=1e-9, equal_nan=True))
+                    if not same:
+                        chk.violation(dict(level="series", clause="member-of-a-series-differs-from-itself-alone", neighbours="same-contractions"),
+                                      f"member {i} of a series whose consecutive members share both contractions reports other percentages / axis than alone ({frame} frame, shifts {fam})",
+                                      dict(kind="same-contraction-series", shifts=fam, frame=frame, member=i))
+            except Exception as ex:  # noqa: BLE001
+                chk.violation(dict(level="series", clause="series-raised", exc=type(ex).__name__), f"elasticity_components raised {ex!r} on a series of positive-definite orthorhombic tensors", dict(kind="same-contraction-series", shifts=fam, frame=frame))
+
     return chk.finish(
         rule="exact: every (library tensor, rotation) CASE emitted by Elastic.tla - 2 built-in tensors and the valid members of the "
         "small-integer orthorhombic family x 40 rotations with denominator <= 3, distinct by (t, r), non-trivial when r is not the identity; "
